@@ -46,3 +46,10 @@ Theorem C04_logout_flag_iff : forall dsig cfg root el flag,
   (flag = false -> el = root /\ (cfg_skip_sig cfg = true \/ dsig root = DMissing)).
 Proof. exact logout_step_ok. Qed.
 Print Assumptions C04_logout_flag_iff.
+
+(* the flags cannot be supplied by the sender: the SignatureValidated fields of all four decoded structs carry the
+   struct tag xml:"-" in the CURRENT source (re-extracted on every run) *)
+Theorem C04_flag_fields_not_decodable :
+  forallb flag_field_is_skipped ["Response"; "Assertion"; "LogoutResponse"; "LogoutRequest"]%string = true.
+Proof. exact flag_fields_not_decodable. Qed.
+Print Assumptions C04_flag_fields_not_decodable.
